@@ -219,6 +219,8 @@ def gen_inputs(tier):
                              "  values:\n    zero: 0\n    first: %s\n    next:\n" % ev):
                     yield ("enum-edges/" + kind[1:], {"model.yml": HOST + "W: %s\n%s%s" % (kind, ("  base: %s\n" % bt) if bt else "", body)}, PKG)
     # (2f) YAML anchors and aliases in every position of a small model (keys, type expressions, dimension maps, values)
+    for dims in ("[&n ~, *n]", "[&n 2, *n]", "{x: &n ~, y: *n}", "[*n]", "&d [2, 3]", "[&n x, *n]"):
+        yield ("anchors", {"model.yml": HOST + "W: !record\n  fields:\n    a: !array\n      items: int\n      dimensions: %s\n" % dims}, PKG)
     anchor_vals = ["", "int", "~", "[int, string]", "!vector {items: int}", "{x: 2}"]
     for av in anchor_vals:
         for where in ("X: &a %s\nY: *a\n", "X: &a %s\n*a : int\n", "W: !record\n  fields:\n    f: &a %s\n    g: *a\n", "W: !record\n  fields:\n    f: &a %s\n*a : int\n",
@@ -251,13 +253,14 @@ def gen_inputs(tier):
         for us in uses:
             yield ("expr-equal", {"model.yml": HOST + gr + us}, PKG)
     # (2i) deep nesting of every constructor that nests: the cost per level must stay far below a doubling of a doubling
-    #      (hang classifier only; depth 24 of generic references is a recorded finding and is not part of the family)
-    for depth in ((8, 12, 16) if quick else (8, 12, 16, 18)):
-        nests = {"generic": "G<" * depth + "int" + ">" * depth, "generic-unknown": "G<" * depth + "Missing" + ">" * depth,
+    #      (hang classifier only)
+    for depth in ((8, 16, 40) if quick else (8, 12, 16, 24, 40, 64)):
+        nests = {"generic": "G<" * depth + "int" + ">" * depth, "generic-record": "Gr<" * depth + "int" + ">" * depth,
+                 "generic-record-union": "Gr<" * depth + "[int, string]" + ">" * depth, "generic-unknown-record": "Gr<" * depth + "Missing" + ">" * depth, "generic-unknown": "G<" * depth + "Missing" + ">" * depth,
                  "vector": "int" + "*" * depth, "optional-vector": "int" + "?*" * (depth // 2), "map": "string->" * depth + "int",
                  "array": "int" + "[]" * depth, "generic-pair": "G2<" * depth + "int" + ", int>" * depth}
         for nm, t in nests.items():
-            yield ("nesting/%s/%d" % (nm, depth), {"model.yml": HOST + "G<T>: T*\nG2<A, B>: !record\n  fields:\n    a: A\n    b: B\nW: !record\n  fields:\n    w: %s\n" % q(t)}, PKG)
+            yield ("nesting/%s/%d" % (nm, depth), {"model.yml": HOST + "G<T>: T*\nGr<T>: !record\n  fields:\n    v: T\nG2<A, B>: !record\n  fields:\n    a: A\n    b: B\nW: !record\n  fields:\n    w: %s\n" % q(t)}, PKG)
         yield ("nesting/parentheses/%d" % depth, {"model.yml": HOST.replace("E: !enum", "  computedFields:\n    c: %s\nE: !enum" % q("(" * depth + "x" + ")" * depth), 1)}, PKG)
         yield ("nesting/unary/%d" % depth, {"model.yml": HOST.replace("E: !enum", "  computedFields:\n    c: %s\nE: !enum" % q("-" * depth + "x"), 1)}, PKG)
         yield ("nesting/yaml-flow/%d" % depth, {"model.yml": HOST + "W: " + "[" * depth + "int" + "]" * depth + "\n"}, PKG)
